@@ -127,3 +127,58 @@ fn c10_cow_sequence() {
     core::mem::forget(seen_m);
     core::mem::forget(env);
 }
+
+// @harness c04_cow_slice_into_new_cluster
+// @props C04 C02
+// @tier quick
+// @cost 10
+// @timeout 900
+// @needs WC
+// @desc whole do_write_cow (lifted) when the L2 table that holds the slice lives in a cluster that is still registered as NEW (allocated, never zeroed on disk -- flush_cache_entries zeroes such a cluster once before the first slice goes in, and zeroes the WHOLE cluster): the in-place write of the L2 slice must not go into that cluster unless the cluster was zeroed first and taken off the registry; otherwise the next ordinary flush of a sibling slice of the same L2 table zeroes the cluster and wipes the slice just written, although it is marked clean
+// @bounds 64 KiB clusters, 512-byte L2 slice in an L2 table at 0x50000 whose cluster is registered new; unallocated cluster of an image with a backing file; every in-cluster block offset; no backend failures
+// @assume as c10_cow_sequence; the registry is observed through the shimmed cluster_is_new / clear_new_cluster / call_fallocate calls
+// @funcs Qcow2Dev::do_write_cow
+// @stub alloc::fmt::format -> String::new()
+#[kani::proof]
+#[kani::unwind(10)]
+#[kani::stub(std::fmt::format, fmt_stub2)]
+fn c04_cow_slice_into_new_cluster() {
+    let cb = 16u32;
+    let info = mk_info(cb, 4, 1u64 << 40, 9, Some((9, 1024)), Some((10, 2048)), false, false, true);
+    let mut env = KEnv::new(info);
+    let cs = 1u64 << cb;
+    let blk: u64 = kani::any();
+    kani::assume(blk < cs / 512);
+    let guest_cluster: u64 = 5 * 64 + 17;
+    let off = (guest_cluster << cb) + blk * 512;
+    let seen_m = L2Entry(0).into_mapping(&env.info, &SplitGuestOffset(off));
+    let mut t = L2Table::new(Some(0x50000), 512, cb as usize);
+    t.set(17, L2Entry(0));
+    env.l2_slice = Some(KHandle::new(t));
+    env.l1_entry = unsafe { core::mem::transmute::<u64, L1Entry>(0x8000_0000_0005_0000u64) };
+    // the L2 table's own cluster (0x50000 >> 16 == 5) has not been zeroed on disk yet
+    env.cluster_new.set(true);
+    let host: u64 = kani::any();
+    kani::assume(host != 0 && host != 0x50000 && host & (cs - 1) == 0 && host >> 56 == 0);
+    env.alloc_off = host;
+    let data = [0u8; 512];
+
+    let r = env.seg_wc(off, &seen_m, &data);
+
+    assert!(r.is_ok());
+    let i_l2 = env.first(K_BACKEND_WRITE);
+    if i_l2 != usize::MAX && env.get_rec(i_l2).off >> cb == 5 {
+        // a slice went into cluster 5: it must have been zeroed and taken off the registry before
+        let i_zero = env.first(K_FALLOC);
+        let i_clear = env.first(K_CLEARNEW);
+        assert!(i_zero != usize::MAX && i_zero < i_l2 && env.get_rec(i_zero).off == 0x50000 && env.get_rec(i_zero).len as u64 == cs);
+        assert!(i_clear != usize::MAX && env.get_rec(i_clear).off == 5);
+    } else {
+        // or the slice is left for the ordinary flush (which zeroes first): then it must be dirty
+        assert!(env.l2_slice.as_ref().unwrap().is_dirty());
+    }
+    kani::cover!(r.is_ok() && blk > 0);
+    core::mem::forget(r);
+    core::mem::forget(seen_m);
+    core::mem::forget(env);
+}
